@@ -176,7 +176,7 @@ blocked caller. A group keeps the holders of `k` in shard `idx k` (`ShLockSt`) a
 what they establish: a shard's answer for `k` depends on the entries of `k` only. -/
 
 /-- For ANY routing function the sharded table answers every script — Lock/RLock/Locks/RLocks and their releases, in any
-mix, through any API on the same key, legal or not — exactly as the single table: same grants, same blocked calls, same
+mix, through any API on the same key, READ lists with repeated keys included, legal or not — exactly as the single table: same grants, same blocked calls, same
 wake-ups, same refusals. (Shard counts, primes, modulo or xxhash routing are all instances of `idx`.) -/
 theorem sharded_locks_equiv (idx : Key → Nat) (reqs : List LReq) :
     outs (shLockStep idx) ShLockSt.empty reqs = outs lockStep LockSt.empty reqs :=
@@ -191,8 +191,15 @@ theorem sharded_locks_equiv (idx : Key → Nat) (reqs : List LReq) :
 callers never take two shards in opposite orders (the ordering argument against deadlock between shards; inside one
 shard the caller's order is kept, as in the unsharded locker) -/
 theorem lock_order_ascending (idx : Key → Nat) (keys : List Key) :
-    AscendingBy idx (shardOrder idx keys) ∧ ∀ k, k ∈ shardOrder idx keys ↔ k ∈ keys :=
-  ⟨shardOrder_ascending idx keys, fun k => mem_shardOrder idx k keys⟩
+    AscendingBy idx (shardOrder idx keys) ∧ (shardOrder idx keys).Perm keys :=
+  ⟨shardOrder_ascending idx keys, shardOrder_perm idx keys⟩
+
+/-- a READ list may name a key twice: it is then held twice (as by the unsharded locker), and one single-key release
+leaves one hold — a writer still blocks -/
+example : outs (shLockStep (fun k => k.bits % 3)) ShLockSt.empty
+    [.acq 0 [⟨.i64, 5, "", 0⟩, ⟨.i64, 9, "", 0⟩, ⟨.i64, 5, "", 0⟩] false, .rel 0 [⟨.i64, 5, "", 0⟩] false,
+     .acq 1 [⟨.i64, 5, "", 0⟩] true, .rel 0 [⟨.i64, 5, "", 0⟩] false, .acq 2 [⟨.i64, 5, "", 0⟩, ⟨.i64, 5, "", 0⟩] true] =
+    [.granted, .released none, .parked, .released (some 1), .illegal] := by decide
 
 /-- a concrete script: Locks([k]) through the multi-key API, then Lock(k) from another thread blocks, Unlock(k) through the
 single-key API releases it and wakes the waiter -/
